@@ -331,3 +331,33 @@ def establishing_calls(crate, body, target, depth=2, _seen=None):
         if ok:
             out.append(bi)
     return out
+
+
+def call_blocks_through_new(crate, body, is_target, depth=3):
+    """Blocks of `body` that call a function satisfying is_target(declared callee path) — directly, or through a
+    helper function that did not exist on the reviewed tree (it acts for its caller, see facts.Crate.owners)."""
+    memo = {}
+
+    def reaches(path, d):
+        if path in memo:
+            return memo[path]
+        memo[path] = False
+        j = crate.mir.get(path)
+        if j is None or d <= 0:
+            return False
+        r = False
+        for bi, t, tgt in M.Body(j).calls():
+            decl = H.strip_generics(M.call_decl(t) or "")
+            c = H.strip_generics(tgt or "")
+            if is_target(decl) or (crate.is_new(c) and reaches(c, d - 1)):
+                r = True
+                break
+        memo[path] = r
+        return r
+    out = []
+    for bi, t, tgt in body.calls():
+        decl = H.strip_generics(M.call_decl(t) or "")
+        c = H.strip_generics(tgt or "")
+        if is_target(decl) or (crate.is_new(c) and reaches(c, depth)):
+            out.append(bi)
+    return out
